@@ -64,6 +64,7 @@ struct Inner {
 pub struct Sched {
     inner: Mutex<Inner>,
     cv: Condvar,
+    epoch: std::sync::atomic::AtomicU64,
 }
 
 static SCHED: OnceLock<Arc<Sched>> = OnceLock::new();
@@ -74,6 +75,7 @@ pub fn sched() -> Arc<Sched> {
             Arc::new(Sched {
                 inner: Mutex::new(Inner::new()),
                 cv: Condvar::new(),
+                epoch: std::sync::atomic::AtomicU64::new(0),
             })
         })
         .clone()
@@ -124,8 +126,14 @@ fn none_item(ch: &str) -> Value {
 }
 
 impl Sched {
+    /// number of the current run; scripted objects of earlier runs stay silent
+    pub fn epoch(&self) -> u64 {
+        self.epoch.load(std::sync::atomic::Ordering::SeqCst)
+    }
+
     pub fn reset(&self, mode: Mode) {
         let mut g = self.inner.lock().unwrap();
+        self.epoch.fetch_add(1, std::sync::atomic::Ordering::SeqCst);
         *g = Inner::new();
         g.mode = mode;
     }
@@ -270,7 +278,7 @@ impl Sched {
                 (Class::Gate, kind, json!({"ch": ch, "item": item}))
             }
             "send.end" => (Class::Gate, kind, json!({"ch": ch, "ok": n})),
-            "loop.wait" | "clear.begin" | "ntf.snap" | "stop.join" | "stop.pool" => {
+            "loop.wait" | "clear.begin" | "ntf.snap" | "stop.join" | "stop.pool" | "stop.drain" => {
                 (Class::Gate, kind, json!(0))
             }
             "loop.end" => (Class::Final, kind, json!(0)),
@@ -320,10 +328,21 @@ impl Sched {
 
     /// A harness-side point of the current thread (scripted callback, end of a public call).
     pub fn point(&self, class: Class, ev: &str, d: Value) -> String {
+        self.point_of(None, class, ev, d)
+    }
+
+    /// like `point`, for an object created in run `epoch`: ignored when that run is over
+    pub fn point_of(&self, epoch: Option<u64>, class: Class, ev: &str, d: Value) -> String {
         let tid = std::thread::current().id();
         let mut g = self.inner.lock().unwrap();
         if g.mode == Mode::Off {
             return String::new();
+        }
+        if let Some(e) = epoch {
+            // checked under the lock that reset() takes, so a straggler cannot slip into the next run
+            if e != self.epoch() {
+                return String::new();
+            }
         }
         let role = match g.roles.get(&tid) {
             Some(r) => r.clone(),
